@@ -56,6 +56,7 @@ def correspond(ctx):
     n = 260 if ctx.tier == "quick" else 1500
     cases, nontrivial = [], set()
     metas = []
+    class_exprs = []
     for _ in range(n):
         plat = rnd.choice(["ios", "nxos"])
         to = OTHER[plat]
@@ -79,6 +80,7 @@ def correspond(ctx):
         c1 = acetext.cfg_coq(plat, "0", pn, prn)
         c2 = acetext.cfg_coq(to, "0", pn, prn)
         cases.append(Case(f"run_acl_platform {c1} {c2} {coq_list(coq_str(l) for l in lines)}", impl, meta))
+        class_exprs.append(f"acl_in_class {c1} {c2} {coq_list(coq_str(l) for l in lines)}")
         if not isinstance(impl, core.Err):
             nontrivial.add(repr((lines, to)))
     # single ACEs and addresses
@@ -109,6 +111,10 @@ def correspond(ctx):
     ctx.coverage["programs"] = n
     bad = core.eval_cases(ctx, "K-platform", IMPORTS, cases, chunk=max(10, len(cases) // 16 + 1))
     ctx.coverage["disagreements_checked"] = bad
+    # how many explored conversions lie inside the class of the certificate-free theorem C02_conversion_checked?
+    ctx.coverage["conversions_in_class_of_C02_conversion_checked"] = core.count_true(
+        ctx, "K-platform-class", IMPORTS + ["proofs.ClassCheck"], class_exprs, chunk=max(10, len(class_exprs) // 16 + 1))
+    ctx.coverage["conversions_total"] = len(class_exprs)
     n_known = 0
     for meta in metas:
         f = oracle(ctx, "K-platform", meta)
